@@ -402,7 +402,47 @@ def data_unit_table(tier, seed):
 
 DATA = [data_unit_table]
 
+def u_eval_expr(I):
+    """eval_expr(text) is eval_subtree(parse(text)) -- of THIS text, whatever was evaluated before (two calls in one process), parse errors pass
+    through, and nothing at module level is written (callee contracts: parse and eval_subtree, proved in their own units)"""
+    ctx = I.ctx
+    TreeOf = z3.Function('TreeOfText', z3.StringSort(), z3.IntSort())
+    Accepts = z3.Function('GrammarAccepts', z3.StringSort(), z3.BoolSort())
+    parsed, evaluated = [], []
+
+    def parse(I_, a, k):
+        if len(a) != 1 or k:
+            raise Unsupported('parse called with other arguments than the text')
+        t = z3_of(a[0])
+        parsed.append(t)
+        if ctx.branch(z3.Not(Accepts(t))):
+            raise I_.exc('UnitsParseError', 'malformed')
+        return Obj(TreeCls, {'id': TreeOf(t)}, 'param')
+
+    def ev(I_, a, k):
+        t = a[0]
+        if not (isinstance(t, Obj) and t.cls is TreeCls):
+            raise Unsupported('eval_subtree called on something that is not a parse result: %r' % (t,))
+        evaluated.append(t.fields['id'])
+        return Obj(TreeVal, {'den': ('Den', t.fields['id'])})
+    I.world.contracts[(PARSER, 'parse')] = parse
+    I.world.contracts[(PARSER, 'eval_subtree')] = ev
+    e1, e2 = I.fresh('first_text', 'str'), I.fresh('text', 'str')
+    run_target(I, PARSER, 'eval_expr', [e1])
+    out = run_target(I, PARSER, 'eval_expr', [e2])
+    writes = [e for e in ctx.effects if e[0].startswith('write')]
+
+    def posts(r):
+        d = den_of(r)
+        ok = isinstance(d, tuple) and len(d) == 2 and d[0] == 'Den' and is_z3(d[1])
+        return [('eval_expr(text) is the value of the tree parsed from this very text', d[1] == TreeOf(e2) if ok else z3.BoolVal(False)),
+                ('nothing at module level is written (no state carried from one evaluation to the next)', z3.BoolVal(not writes))]
+    check_outcome(I, out, raises={'UnitsParseError': z3.Not(Accepts(e2))}, returns=posts)
+    return {'inputs': {}}
+
+
 UNITS = [
+    Unit('eval_expr[two calls]', (PARSER, 'eval_expr'), u_eval_expr),
     Unit('UnitsDB.lookup', (DB, 'UnitsDB.lookup'), u_lookup, replay_lookup),
     Unit('eval_subtree', (PARSER, 'eval_subtree'), u_eval_subtree),
     Unit('GenericQuantity.in_units', (QTY, 'GenericQuantity.in_units'), u_in_units),
@@ -559,6 +599,42 @@ def standin_parser(tier, seed):
                 if not good and len(viol) < 15:
                     viol.append({'id': text.replace(' ', '_'), 'input': text, 'observed': str(got), 'expected': str(want),
                                  'script': "from pgradd.Units import eval_qty\nprint(eval_qty(%r))  # expected %s\n" % (text, want)})
+        # layout matters between two names / two numbers (juxtaposition is a product, 'm s' is not 'ms'), and an expression means the same
+        # whatever was evaluated before it: glued spelling, spaced spelling, glued spelling again, all in this process
+        def outcome(text):
+            try:
+                q = eval_qty(text)
+                if isinstance(q, Quantity):
+                    e = q.units.exps
+                    return (float(q.value), tuple(float(x) for x in e))
+                return (float(q), ())
+            except Exception as ex:    # noqa
+                return 'raised ' + type(ex).__name__
+        words = [t for t in ALPHABET if t.isalpha() or t.isdigit()] + ['k', 'g', 'mol', 'K', 'N', 'min', 'h', 'in', 'c', 'd', 'a']
+        for t1 in words:
+            for t2 in words:
+                glued, spaced = t1 + t2, t1 + ' ' + t2
+                r1 = outcome(glued)
+                try:
+                    want = spec_eval([t1, t2]) if all(w in ALPHABET for w in (t1, t2)) else None
+                except _Err:
+                    want = 'UnitsParseError'
+                except (_Skip, OverflowError, ZeroDivisionError):
+                    want = None
+                s1 = outcome(spaced)
+                r2 = outcome(glued)
+                n += 1
+                bad = None
+                if r1 != r2:
+                    bad = ('%r evaluated before and after %r' % (glued, spaced), '%s then %s' % (r1, r2), 'the same value both times')
+                elif isinstance(want, tuple) and not (isinstance(s1, tuple) and abs(s1[0] - want[0]) <= 1e-9 * max(1, abs(want[0])) and
+                                                      all(abs(a - b) < 1e-6 for a, b in zip(s1[1][:3] or (0, 0, 0), want[1]))):
+                    bad = ('%r after %r' % (spaced, glued), str(s1), str(want))
+                elif want == 'UnitsParseError' and s1 != 'raised UnitsParseError':
+                    bad = ('%r after %r' % (spaced, glued), str(s1), 'UnitsParseError')
+                if bad and len(viol) < 15:
+                    viol.append({'id': 'layout-%s-%s' % (t1, t2), 'cls': 'layout-or-history-dependent-evaluation', 'input': bad[0], 'observed': bad[1], 'expected': bad[2],
+                                 'script': "from pgradd.Units import eval_qty\nprint(eval_qty(%r)); print(eval_qty(%r)); print(eval_qty(%r))\n" % (glued, spaced, glued)})
     return {'name': 'unit-grammar-bounded-exhaustive', 'bound': 'all token sequences of length <= %d over %s' % (maxlen, ALPHABET),
             'evaluations': n, 'distinct_nontrivial': ok_n, 'violations': viol, 'samples': samples, 'exhaustive': True,
             'rule': 'every sequence is distinct; non-trivial = accepted by the documented grammar (the rest must be rejected)'}
